@@ -62,7 +62,13 @@ def run(tier):
     items = [items[k] for k in sorted(items)]
     log(f"[C08] MC_PublicInputs: {len(items)} items, round trip and injectivity hold")
     scen = []
+    dom_items = [it for it in items if it["ty"] == "big_dom"]
+    items = [it for it in items if it["ty"] != "big_dom"]
+    for it in dom_items:
+        scen.append({"encdom": True, "nbits": it["nbits"], "val": it["val"]})
     for it in items:
+        if it["ty"] == "big":
+            scen.append({"encdom": True, "nbits": it["nbits"], "val": it["val"]})
         for path in ("constrain", "assign"):
             if it["ty"] == "big" and path == "assign":
                 continue
@@ -110,13 +116,26 @@ def run(tier):
     row_sets = [vlib.read_ndjson(j[2]) for j in jobs]
     pubs = [r for rows in row_sets for r in rows if r["ev"] == "Pub"]
     good, rejected, st = vlib.validate_many(row_sets, "PubIn_Trace.tla", "PubIn_Trace.cfg", "C08", "pub",
-                                            max_rejects=8, start_ev=("Pub", "Acc", "PubC"))
+                                            max_rejects=8, start_ev=("Pub", "Acc", "PubC", "EncDom"))
     for run_rows, line, e in [x for x in rejected if x[2]["ev"] == "PubC"]:
         rep.violation({"clause": "committed_instances", "types": ["native"], "vk_nb_is_plain_count": e["vk_nb"] == e["np"]},
                       f"relation with {e['np']} plain and {e['nc']} committed public inputs: key records {e['vk_nb']}, verify={e['verify']} shorter={e['verify_shorter']} "
                       f"longer={e['verify_longer']} padded={e['verify_padded']} other_commitment={e['verify_other_commitment']} none={e['verify_no_commitment']}",
                       {"scenario": {"committed": True, "np": e["np"], "nc": e["nc"]}})
     rejected = [x for x in rejected if x[2]["ev"] != "PubC"]
+    doms = [r for rows in row_sets for r in rows if r["ev"] == "EncDom"]
+    fit = [vlib.nat_to_int(e["val"]) < 1 << (96 * ((e["nbits"] + 95) // 96)) for e in doms]
+    if not any(fit) or all(fit):
+        raise vlib.ToolError("vacuity: the encoder-domain runs do not contain both values that fit the limbs and values that do not")
+    for run_rows, line, e in [x for x in rejected if x[2]["ev"] == "EncDom"]:
+        nl = (e["nbits"] + 95) // 96
+        fits = vlib.nat_to_int(e["val"]) < 1 << (96 * nl)
+        rep.violation({"clause": "encoder_domain", "types": ["big"], "fits_limbs": fits},
+                      f"AssignedBigUint::as_public_input(value of {vlib.nat_to_int(e['val']).bit_length()} bits, nb_bits={e['nbits']}): refused={e['refused']} "
+                      f"enc={json.dumps(e['enc'])[:120]} - " + ("differs from the specification's limbs" if fits else
+                      "a value that does not fit the limbs was answered with the encoding of another value"),
+                      {"scenario": {"encdom": True, "nbits": e["nbits"], "val": e["val"]}})
+    rejected = [x for x in rejected if x[2]["ev"] != "EncDom"]
     accs = [r for rows in row_sets for r in rows if r["ev"] == "Acc"]
     for run_rows, line, e in [x for x in rejected if x[2]["ev"] == "Acc"]:
         clause = ("panic" if e["status"] == "panic" else "circuit_binds_other_vector" if e["status"] != "sat" or e["exposed"] != e["offchain"]
@@ -156,6 +175,7 @@ def run(tier):
         "relations": len(pubs), "accumulators": len(accs), "accumulators_with_unsorted_names": sum(1 for a in accs if not a["names_sorted"]), "items_exposed": sum(len(e["items"]) for e in pubs),
         "edits": nedits, "edits_accepted": sum(1 for e in pubs for x in e["edits"] if x["status"] == "sat"),
         "relations_with_keys": sum(1 for e in pubs if e.get("keys")),
+        "encoder_domain_runs": len(doms), "encoder_domain_refusals": sum(1 for e in doms if e["refused"]),
         "types": sorted(set(i["ty"] for e in pubs for i in e["items"])),
         "evaluations": nedits + len(pubs),
         "distinct_nontrivial": len(set((i["ty"], i.get("path")) for e in pubs for i in e["items"])),
